@@ -35,6 +35,10 @@ def main() -> int:
         from sim import selftest
 
         return selftest.setup()
+    if a.what == "transparency":
+        from sim import selftest
+
+        return selftest.transparency()
     if a.what == "selftest":
         from sim import selftest
 
